@@ -20,29 +20,31 @@ import (
 
 // what the peer does when it sees sender i's primary
 const (
-	pkReply      = iota // the matching secondary
-	pkReplyHeld         // the matching secondary, released later in random order (permuted / delayed)
-	pkDup               // the matching secondary twice
-	pkDrop              // nothing: T3
-	pkReject            // Reject.req with the same system bytes
-	pkUnsol             // an unsolicited secondary (system bytes nobody uses), then the reply
-	pkPrimOdd           // a peer PRIMARY (odd function, no W) reusing the system bytes, then the reply
-	pkPrimW             // a peer PRIMARY (even function, W set) reusing the system bytes, then the reply
-	pkPrimOddW          // a peer PRIMARY (odd function, W set) reusing the system bytes, then the reply
-	pkCtrl              // a control response (Select/Deselect/Linktest.rsp) reusing the system bytes, then the reply
-	pkCancel            // nothing; the caller's ctx is cancelled once the primary is on the wire
-	pkCancelLate        // caller cancels, then the reply arrives anyway (late)
-	pkBad               // a frame with an unsupported PType reusing the system bytes, then the reply
-	pkOtherFn           // a secondary with the same system bytes but another stream/function (still the reply by E37)
-	pkF0                // SxF0 abort secondary
-	pkDropLate          // nothing until T3 fired, then the (late) reply
-	pkNone              // (ff / async senders) nothing
-	pkEcho              // (ff / async senders) an unsolicited secondary with their system bytes
+	pkReply       = iota // the matching secondary
+	pkReplyHeld          // the matching secondary, released later in random order (permuted / delayed)
+	pkDup                // the matching secondary twice
+	pkDrop               // nothing: T3
+	pkReject             // Reject.req with the same system bytes
+	pkUnsol              // an unsolicited secondary (system bytes nobody uses), then the reply
+	pkPrimOdd            // a peer PRIMARY (odd function, no W) reusing the system bytes, then the reply
+	pkPrimW              // a peer PRIMARY (even function, W set) reusing the system bytes, then the reply
+	pkPrimOddW           // a peer PRIMARY (odd function, W set) reusing the system bytes, then the reply
+	pkCtrl               // a control response (Select/Deselect/Linktest.rsp) reusing the system bytes, then the reply
+	pkCancel             // nothing; the caller's ctx is cancelled once the primary is on the wire
+	pkCancelLate         // caller cancels, then the reply arrives anyway (late)
+	pkBad                // a frame with an unsupported PType reusing the system bytes, then the reply
+	pkOtherFn            // a secondary with the same system bytes but another stream/function (still the reply by E37)
+	pkF0                 // SxF0 abort secondary
+	pkDropLate           // nothing until T3 fired, then the (late) reply
+	pkNone               // (ff / async senders) nothing
+	pkEcho               // (ff / async senders) an unsolicited secondary with their system bytes
+	pkForeign            // data frames of a FOREIGN session (a primary and a secondary reusing the system bytes), then the reply
+	pkForeignS9F1        // an S9F1 of a foreign session (exempt from session validation: delivered), then the reply
 	pkKinds
 )
 
 var pkNames = [...]string{"reply", "reply-held", "dup", "drop", "reject", "unsolicited", "primary-odd", "primary-W", "primary-odd-W",
-	"ctrl-collide", "cancel", "cancel-late", "bad-ptype", "other-fn", "f0-abort", "drop-late", "none", "echo"}
+	"ctrl-collide", "cancel", "cancel-late", "bad-ptype", "other-fn", "f0-abort", "drop-late", "none", "echo", "foreign-session", "foreign-s9f1"}
 
 type rSenderPlan struct {
 	Kind   string `json:"kind"` // s f a
@@ -62,14 +64,15 @@ type rSpec struct {
 	T3       time.Duration `json:"t3"`
 	Plans    []rSenderPlan `json:"plans"`
 	// drop control (generation 0 only)
-	DropAfter int           `json:"drop_after"` // >0: the peer closes generation 0 after it has seen this many data primaries
-	DropMode  string        `json:"drop_mode"`  // "" | await (after replies are withheld) | stall (mid-write) | queued
-	Reconnect bool          `json:"reconnect"`  // wait for generation 1 to select and run wave 1 there
-	Deselect  bool          `json:"deselect"`   // sequential mode: the peer deselects before the calls of wave 3 and reselects after them
-	FailDials int           `json:"fail_dials"` // after the drop, this many dial attempts fail before one succeeds (reconnect loop keeps running)
-	Seq       bool          `json:"seq"`        // run the calls one after the other with a counter snapshot after each (per-outcome deltas)
-	Linktest  time.Duration `json:"linktest"`   // >0: auto-linktest enabled with this interval (the peer answers every Linktest.req)
-	Mirror    string        `json:"mirror"`     // "linktest" | "select": the peer first answers that control request with a DATA secondary reusing its system bytes
+	DropAfter       int           `json:"drop_after"`       // >0: the peer closes generation 0 after it has seen this many data primaries
+	DropMode        string        `json:"drop_mode"`        // "" | await (after replies are withheld) | stall (mid-write) | queued
+	Reconnect       bool          `json:"reconnect"`        // wait for generation 1 to select and run wave 1 there
+	Deselect        bool          `json:"deselect"`         // sequential mode: the peer deselects before the calls of wave 3 and reselects after them
+	FailDials       int           `json:"fail_dials"`       // after the drop, this many dial attempts fail before one succeeds (reconnect loop keeps running)
+	Seq             bool          `json:"seq"`              // run the calls one after the other with a counter snapshot after each (per-outcome deltas)
+	ValidateSession bool          `json:"validate_session"` // hsms.WithSessionIDValidation(true)
+	Linktest        time.Duration `json:"linktest"`         // >0: auto-linktest enabled with this interval (the peer answers every Linktest.req)
+	Mirror          string        `json:"mirror"`           // "linktest" | "select": the peer first answers that control request with a DATA secondary reusing its system bytes
 }
 
 type rRun struct {
@@ -229,6 +232,13 @@ func (r *rRun) respond(g *rGen, arrive <-chan rFrame, done <-chan struct{}) {
 			r.peer.sendData(g, (st+1)&0x7f, fn+3, false, sb, sess)
 		case pkF0:
 			r.peer.sendData(g, st, 0, false, sb, sess)
+		case pkForeign:
+			r.peer.sendData(g, st, fn|1, r.rng.IntN(2) == 0, 0x40000000|sb, sess^0x5a5a)
+			r.peer.sendData(g, st, fn+1, false, sb, sess^0x1111)
+			hold = append(hold, held{reply})
+		case pkForeignS9F1:
+			r.peer.sendData(g, 9, 1, false, 0x40000000|sb, sess^0x2222)
+			hold = append(hold, held{reply})
 		case pkEcho:
 			r.peer.sendData(g, st, fn+1, false, sb, sess)
 		}
@@ -315,7 +325,7 @@ func runWaveOnly(r *rRun, conn hsmsss.Connection, i int) {
 
 // runScenario executes spec once and returns the recorded history (nil + reason when the scenario could not start).
 func runScenario(spec *rSpec) (*rHistory, []string, string) {
-	r := &rRun{spec: spec, peer: newRPeer(), hist: &rHistory{NSenders: len(spec.Plans), NHandlers: spec.Handlers},
+	r := &rRun{spec: spec, peer: newRPeer(), hist: &rHistory{NSenders: len(spec.Plans), NHandlers: spec.Handlers, ValidateSession: spec.ValidateSession},
 		rng: rand.New(rand.NewPCG(spec.Seed, 0x5151)), stalled: make(chan struct{})}
 	n := len(spec.Plans)
 	r.cancels = make([]context.CancelFunc, n)
@@ -341,7 +351,7 @@ func runScenario(spec *rSpec) (*rHistory, []string, string) {
 	}
 	r.peer.mirrorLinktest.Store(spec.Mirror == "linktest")
 	r.peer.mirrorSelect.Store(spec.Mirror == "select")
-	conn, err := rNewConn(r.peer, rConnOpts{T3: spec.T3, Linktest: spec.Linktest})
+	conn, err := rNewConn(r.peer, rConnOpts{T3: spec.T3, Linktest: spec.Linktest, ValidateSession: spec.ValidateSession})
 	if err != nil {
 		return nil, nil, "config: " + err.Error()
 	}
